@@ -8,7 +8,7 @@ import sys
 import tempfile
 
 VERIF = os.path.dirname(os.path.dirname(os.path.dirname(os.path.abspath(__file__))))
-REPO = "/repo"
+REPO = os.environ.get("VERIF_REPO", "/repo")   # a scratch worktree may be substituted during development
 LEAN_DIR = os.path.join(VERIF, "lean")
 
 
